@@ -27,14 +27,14 @@ ASSUMPTIONS = ['the reference release (mpmath 1.3.0) at 2p+200 bits evaluates ex
                'tol_prec/6 (otherwise thousands of segments are needed: cost, not correctness)',
                'segment boundaries are read from the closure of the returned function (series_boundaries); if the name disappears the '
                'boundary queries are skipped and the run reports it']
-LEVEL_TEXT = ('exploration: ~7*10^2 (quick) / ~3.5*10^3 (thorough) ODE problems, each solved three times; ~10 points per problem compared bit '
+LEVEL_TEXT = ('exploration: ~5.8*10^2 (quick) / ~3.5*10^3 (thorough) ODE problems, each solved three times; ~10 points per problem compared bit '
               'for bit between evaluation histories and against the closed form')
 LEVEL_NOTE = 'ODEs and histories not generated are not covered; closed forms rely on the reference release at high precision'
 TECHNIQUE = 'history check on the live object (differential run against an in-order run) + closed-form reference monitor'
 SHARD_TIMEOUT = {'quick': 1800, 'thorough': 7200}
 
 NSHARDS = 16
-COUNTS = {'quick': 45, 'thorough': 220}
+COUNTS = {'quick': 36, 'thorough': 220}
 FAMS = ['exp', 'osc', 'ysq', 'ysqm', 'tri', 'cosx', 'xy', 'poly', 'rat']
 PRECS_Q = [30, 40, 53, 64, 80, 100, 113]
 PRECS_T = [30, 40, 53, 64, 80, 100, 113, 150, 200]
@@ -338,7 +338,7 @@ def run_case(mp, rec, spec):
     rec.sample({'fam': fam, 'p': p, 'plan': len(plan), 'history': len(Bvals), 'boundaries': None if bounds is None else len(bounds)})
 
 
-CASE_CPU_CAP = 90.0      # seconds of CPU time (ITIMER_VIRTUAL: independent of the machine load); a normal case needs < 10 s
+CASE_CPU_CAP = {'quick': 30.0, 'thorough': 90.0}     # seconds of CPU time (ITIMER_VIRTUAL: independent of the machine load); a normal case needs < 10 s
 
 
 class _CpuCap(BaseException):
@@ -360,12 +360,13 @@ def run_shard(shard, rec):
         for i in range(shard['n']):
             spec = gen_case(r, i * NSHARDS + k, shard['tier'])
             mp.prec = 53
-            signal.setitimer(signal.ITIMER_VIRTUAL, CASE_CPU_CAP)
+            cap = CASE_CPU_CAP.get(shard.get('tier'), 90.0)
+            signal.setitimer(signal.ITIMER_VIRTUAL, cap)
             try:
                 run_case(mp, rec, spec)
             except _CpuCap:
                 rec.case(('capped', spec['fam'], spec['p'], spec['hseed']), False, cls='%s/cpu-cap' % spec['fam'])
-                rec.undecided('case exceeded the CPU cap of %d s (no verdict; a normal case needs < 10 s)' % CASE_CPU_CAP, spec)
+                rec.undecided('case exceeded the CPU cap of %d s (no verdict; a normal case needs < 10 s)' % cap, spec)
             finally:
                 signal.setitimer(signal.ITIMER_VIRTUAL, 0)
                 mp.prec = 53
